@@ -11,13 +11,15 @@ pub mod tests;
 // ================================================================================================
 
 /// The number of unique transition constraints in the input/output operations.
-pub const NUM_CONSTRAINTS: usize = 1;
+pub const NUM_CONSTRAINTS: usize = 2;
 
 /// The degrees of constraints in the individual constraints of the input/output ops.
 pub const CONSTRAINT_DEGREES: [usize; NUM_CONSTRAINTS] = [
     // Given it is a degree 7 operation, 7 is added to all the individual constraints
     // degree.
     8, // constraint for SDEPTH operation.
+    // The flags of PIPE and MSTREAM have degree 4.
+    5, // constraint for the pointer of the PIPE and MSTREAM operations.
 ];
 
 // INPUT/OUTPUT OPERATIONS TRANSITION CONSTRAINTS
@@ -45,6 +47,11 @@ pub fn enforce_constraints<E: FieldElement>(
     let mut index = 0;
 
     index += enforce_sdepth_constraint(frame, result, op_flag.sdepth());
+    index += enforce_pipe_mstream_constraint(
+        frame,
+        &mut result[index..],
+        op_flag.pipe() + op_flag.mstream(),
+    );
 
     index
 }
@@ -59,6 +66,21 @@ pub fn enforce_sdepth_constraint<E: FieldElement>(
 ) -> usize {
     // Enforces the depth of the stack is equal to the top element in the next frame.
     result[0] = op_flag * are_equal(frame.stack_item_next(0), frame.stack_depth());
+
+    1
+}
+
+/// Enforces constraints of the PIPE and MSTREAM operations on the memory pointer. Both operations
+/// move two words to or from memory starting at the address held in position 12 of the stack.
+/// Therefore, the following constraints are enforced:
+/// - The pointer in the next frame should be the pointer incremented by 2.
+pub fn enforce_pipe_mstream_constraint<E: FieldElement>(
+    frame: &EvaluationFrame<E>,
+    result: &mut [E],
+    op_flag: E,
+) -> usize {
+    result[0] =
+        op_flag * are_equal(frame.stack_item_next(12), frame.stack_item(12) + E::from(2u32));
 
     1
 }
